@@ -69,10 +69,18 @@ pub fn check_api_seeded(c: &ApiCase) -> CheckResult {
             Err(_) => return Ok(CaseInfo::new(false).class("constructor-error (C09's subject)")),
         },
     };
-    let zero = adapter::from_state_bytes(c.ty, &vec![0u8; c.ty.info().seed_len]).ok_or_else(|| Fail::inconclusive("C07:observation", "cannot build the zero-state generator through Deserialize"))?;
+    // the zero-state generator through Deserialize; where Deserialize refuses that state, the
+    // validated serde image of the generator itself is inspected instead
+    let zero = adapter::from_state_bytes(c.ty, &vec![0u8; c.ty.info().seed_len]);
+    let is_zero = |g: &dyn crate::adapter::Gen| -> bool {
+        match &zero {
+            Some(z) => g.eq_dyn(&**z) != Some(false),
+            None => adapter::observe_state(g).map(|img| img.iter().all(|&b| b == 0)).unwrap_or(false),
+        }
+    };
     let start = g.clone_box();
     for step in 0..=c.k {
-        if g.eq_dyn(&*zero) != Some(false) {
+        if is_zero(&*g) {
             return Err(Fail::new(format!("C07:api-seeded-zero-state:{}:{}", name, how), format!("a generator obtained through {} is in the all-zero state after {} steps: it sits on the fixed point outside the 2^n-1 cycle and returns the same value forever", how, step)));
         }
         if step > 0 && g.eq_dyn(&*start) != Some(false) {
@@ -92,6 +100,10 @@ pub fn check_linear(c: &PairCase) -> CheckResult {
     let m = linear::model(c.ty).map_err(inconcl)?;
     let (a, b) = (Bits::from_bytes(&c.a.bytes), Bits::from_bytes(&c.b.bytes));
     let ab = a.xor(&b);
+    if ab.is_zero() {
+        // a == b: the relation is trivial, and the all-zero state need not be constructible
+        return Ok(CaseInfo::new(false).class("degenerate-pair"));
+    }
     let (sa, sb, sab) = (linear::step(c.ty, &a).map_err(inconcl)?, linear::step(c.ty, &b).map_err(inconcl)?, linear::step(c.ty, &ab).map_err(inconcl)?);
     if sa.xor(&sb) != sab {
         return Err(Fail::new(format!("C07:not-linear:{}", name), "step(a xor b) != step(a) xor step(b): the state transition is not GF(2)-linear, so the period algebra does not apply (and the published engines are linear)")
@@ -170,6 +182,10 @@ pub fn check_minpoly(c: &MinPolyCase) -> CheckResult {
 pub fn check_alg(c: &AlgCase) -> CheckResult {
     match c {
         AlgCase::ZeroFixed(ty) => {
+            if linear::try_gen_in_state(*ty, &Bits::ZERO).is_none() {
+                // Deserialize refuses the all-zero state: it cannot be entered at all
+                return Ok(CaseInfo::new(false).class("zero-state-not-constructible"));
+            }
             let z = linear::step(*ty, &Bits::ZERO).map_err(inconcl)?;
             if !z.is_zero() {
                 return Err(Fail::new(format!("C07:zero-not-fixed:{}", ty.name()), "step(0) != 0: the transition is affine, not linear"));
@@ -221,14 +237,14 @@ pub fn check_cycle(c: &CycleCase) -> CheckResult {
     let name = c.ty.name();
     let s = Bits::from_bytes(&c.s.bytes);
     let start = gen_in_state(c.ty, &s);
-    let zero = gen_in_state(c.ty, &Bits::ZERO);
+    let zero = linear::try_gen_in_state(c.ty, &Bits::ZERO);
     let mut g = gen_in_state(c.ty, &s);
     for k in 1..=(1u64 << c.log2_steps) {
         g.next_native();
         if g.eq_dyn(&*start) == Some(true) {
             return Err(Fail::new(format!("C07:short-cycle:{}", name), format!("the state sequence returned to its start after {} steps", k)));
         }
-        if g.eq_dyn(&*zero) == Some(true) {
+        if zero.as_ref().map(|z| g.eq_dyn(&**z) == Some(true)).unwrap_or(false) {
             return Err(Fail::new(format!("C07:reached-zero:{}", name), format!("the all-zero state was reached after {} steps", k)));
         }
     }
